@@ -176,14 +176,15 @@ def run(args):
             try:
                 for p in props:
                     t0 = time.time()
-                    rc, out = sh([os.path.join(VERIF, "check"), p, "--tier", args.tier], cwd=VERIF, timeout=7200, env={"VERIF_SEED": str(args.seed)})
+                    cdir = args.check_dir or VERIF
+                    rc, out = sh([os.path.join(cdir, "check"), p, "--tier", args.tier], cwd=cdir, timeout=7200, env={"VERIF_SEED": str(args.seed)})
                     fps = [l[len("[driver] violation "):][:400] for l in out.splitlines() if l.startswith("[driver] violation")]
                     verdict = {0: "MISSED", 1: "CAUGHT", 2: "INCONCLUSIVE"}.get(rc, f"rc={rc}")
-                    meta.setdefault("checks", {})[f"{p}/{args.tier}"] = {
+                    meta.setdefault("checks", {})[f"{p}/{args.tier}" + (f"@{args.label}" if args.label else "")] = {
                         "verdict": verdict, "wall_s": round(time.time() - t0, 1), "seed": args.seed,
                         "first_violation": fps[0] if fps else "", "cmd": f"git -C /repo apply seeded/{sid}/patch.diff && ./check {p} --tier {args.tier}; git -C /repo checkout -- .",
                     }
-                    print(f"{sid}: {p}/{args.tier} {verdict} in {round(time.time() - t0, 1)}s {fps[0][:160] if fps else out.strip().splitlines()[-1][:160] if out.strip() else ''}", flush=True)
+                    print(f"{sid}: {p}/{args.tier}{'@' + args.label if args.label else ''} {verdict} in {round(time.time() - t0, 1)}s {fps[0][:160] if fps else out.strip().splitlines()[-1][:160] if out.strip() else ''}", flush=True)
             finally:
                 sh(["git", "-C", REPO, "checkout", "--", "."])
             json.dump(meta, open(mp, "w"), indent=1)
@@ -208,6 +209,8 @@ def main():
     r.add_argument("--tier", default="quick")
     r.add_argument("--props", default="")
     r.add_argument("--seed", type=int, default=1)
+    r.add_argument("--check-dir", default="", help="run the ./check of another checkout of /verif (e.g. an older commit) and record under --label")
+    r.add_argument("--label", default="")
     args = ap.parse_args()
     return confirm(args) if args.cmd == "confirm" else run(args)
 
